@@ -543,6 +543,30 @@ def run_task(task):
     res = TaskResult()
     kind = task["kind"]
     try:
+        if kind == "long":
+            for L in (255, 256, 257, 2049, 64008, 64009, 65536, 65537, 70001):
+                x = bytes((i * 13 + (i >> 8) + L) % 256 for i in range(L))
+                case = {"op": "weave", "hex": x.hex()}
+                for _ in range(2):      # twice: the result must not depend on earlier calls
+                    if L < 65536:
+                        check_weave_data(c, x, case)
+                    else:   # the two tag planes only distinguish 65536 positions: model + inverse laws
+                        a = _call(c.encrypt.interleave, x, case, "interleave")
+                        b = _call(c.encrypt.deinterleave, x, case, "deinterleave")
+                        if a != m_interleave(x):
+                            raise Violation("interleave_matches_weave", case, "weave model", "differs", f"length {L}")
+                        if b != m_deinterleave(x):
+                            raise Violation("deinterleave_matches_weave", case, "weave model", "differs", f"length {L}")
+                        if _call(c.encrypt.deinterleave, a, case, "deinterleave") != x:
+                            raise Violation("deinterleave_inverts_interleave", case, "x", "differs", f"length {L}")
+                        if _call(c.encrypt.interleave, b, case, "interleave") != x:
+                            raise Violation("interleave_inverts_deinterleave", case, "x", "differs", f"length {L}")
+                    check_flip(c, x, {"op": "flip", "hex": x.hex()})
+                    for m in (1, 2, 3, 7, 128, 255, 256, 0):
+                        check_swap(c, x, m, {"op": "swap", "hex": x.hex(), "m": m})
+                res.evaluations += 1
+                res.nontrivial(["long", L])
+            return res
         if kind == "vectors":
             fs = {"interleave": (c.encrypt.interleave, ()), "deinterleave": (c.encrypt.deinterleave, ()),
                   "flip_msb": (c.encrypt.flip_msb, ()), "swap3": (c.encrypt.swap_multiples, (3,))}
@@ -617,7 +641,7 @@ def plan(tier, seed):
     for m in PAT_MULTIPLES:
         tasks.append({"kind": "swap_pat", "m": m, "n_lo": PAT_MAXN - 1, "n_hi": PAT_MAXN - 1})
         tasks.append({"kind": "swap_pat", "m": m, "n_lo": 0, "n_hi": PAT_MAXN - 2})
-    tasks += [{"kind": "vectors"}, {"kind": "flip"}]
+    tasks += [{"kind": "vectors"}, {"kind": "flip"}, {"kind": "long"}]
     return tasks
 
 
